@@ -217,19 +217,20 @@ func (e *Engine) initExterns() {
 
 	e.initAtomics()
 	e.initSyncMap()
+	e.initStringsBuilder()
+	e.initHasher()
 	for _, p := range []string{
 		"strings.Contains", "strings.HasPrefix", "strings.HasSuffix", "strings.Index", "strings.IndexByte", "strings.LastIndex",
 		"strings.ToLower", "strings.ToUpper", "strings.TrimSpace", "strings.Trim", "strings.TrimPrefix", "strings.TrimSuffix",
 		"strings.TrimLeft", "strings.TrimRight", "strings.Count", "strings.Repeat", "strings.EqualFold", "strings.ReplaceAll",
 		"strings.Replace", "strings.ContainsAny", "strings.ContainsRune", "strings.IndexAny", "strings.Title", "strings.LastIndexByte",
-		"strconv.Itoa", "strconv.Quote", "path.Ext", "path.Base", "path/filepath.Ext", "path/filepath.Base", "path/filepath.Join",
+		"strconv.Itoa", "strconv.FormatUint", "strconv.FormatInt", "strconv.Quote", "path.Ext", "path.Base", "path/filepath.Ext", "path/filepath.Base", "path/filepath.Join",
 		"net/url.QueryEscape", "net/url.PathEscape", "bytes.Contains", "bytes.HasPrefix", "bytes.Equal", "bytes.TrimSpace",
 		"math.Abs", "math.Pow", "math.Sqrt", "math.Log", "math.Log2", "math.Exp", "math.Round", "math.Trunc",
 		"unicode.IsSpace", "unicode.IsLetter", "unicode.IsDigit", "unicode/utf8.RuneCountInString", "unicode/utf8.ValidString",
 		"net/http.StatusText", "net/http.CanonicalHeaderKey", "(net/http.Header).Get", "(net/http.Header).Values",
 		"(*net/url.URL).String", "(*net/url.URL).Hostname", "(*net/url.URL).Port", "(*net/url.URL).IsAbs", "(*net/url.URL).Query",
 		"(*regexp.Regexp).MatchString", "(*regexp.Regexp).String",
-		"hash/fnv.New64a",
 	} {
 		e.pure[p] = true
 	}
